@@ -31,7 +31,7 @@ func init() {
 			{PkgPath: coqPkg, Func: "verifC05Binders", Opt: big},
 		},
 		Covers: []string{"c05/comment", "c05/logging", "c05/indented-comment", "c05/strlit/accepted", "c05/strlit/rejected", "c05/panicmsg/accepted", "c05/panicmsg/rejected", "c05/declcomment", "c05/typecheck-flag", "c05/binders"},
-		Bounds: "comment / log-call / doc-comment / string-literal text: every byte string of length ≤ 4 (quick) / ≤ 6 (thorough), all bytes symbolic (so (*, *), quotes, newlines, non-ASCII all occur); indentation levels 0, 2, 4; three declaration kinds; AddTypes on/off; real goose on the rule corpora and 150 (500) random look-alikes: flag invariance of every definition, and an empty-expression lint (a binder, separator or keyword followed by a token that cannot start an expression, after removing comments and masking strings)",
+		Bounds: "comment / log-call / doc-comment / string-literal text: every byte string of length ≤ 4 (quick) / ≤ 6 (thorough), all bytes symbolic (so (*, *), quotes, newlines, non-ASCII all occur); indentation levels 0, 2, 4; three declaration kinds; AddTypes on/off; real goose on the rule corpora and 150 (500) random look-alikes: flag invariance of every definition, an invariance check of the output structure under replacing the contents of all Go string literals by letters, and an empty-expression lint (a binder, separator or keyword followed by a token that cannot start an expression, after removing comments and masking strings)",
 		Assumptions: []string{
 			"Coq lexing rules used by the oracle: (* *) nest; inside a comment a double quote opens a string in which comment delimiters are ignored; strings end at the next double quote",
 			"string literals and panic messages go through the real basicLiteral / callExpr guards (driven with a hand-built types.Info holding a symbolic constant)",
